@@ -270,3 +270,76 @@ Proof.
     destruct (R_out_ext MNeutral nw w3 (shutdown nw true lost w3 d) (R_shutdown nw MNeutral true lost w3 d)) as [l H] end.
   exists l. rewrite H. reflexivity.
 Qed.
+
+(** * more emission facts *)
+(** a processor that finishes a part while holding a reservation schedules the release-if-idle event at this very instant,
+    after the hand-over attempt (lower priority): the resources go back unless the next part arrives in between (C11) *)
+Lemma finish_schedules_release fuel nw w d it i :
+  d_kind (getd w d) = KProcessor -> d_shut (getd w d) = false -> d_part (getd w d) = Some it -> d_out (getd w d) = None ->
+  d_reserved (getd w d) = Some i -> amem d (f_devs w) = true ->
+  exists l l', f_out (finish_cycle fuel nw w d) =
+               l ++ FSched nw P_RELEASE d (AReleaseIfIdle d) :: l' /\
+               In (FSched (Z.max 0 (nw + 0)) P_PASS_PART d (APassPart d)) l'.
+Proof.
+  intros K S P O RV M. unfold finish_cycle. rewrite K. unfold operational. rewrite K, S, P, O. cbn [negb].
+  set (w0 := updd w d (t_finish_proc nw it)).
+  assert (K0 : d_kind (getd w0 d) = KProcessor).
+  { unfold w0. rewrite (getd_updd_field d_kind w d (t_finish_proc nw it) d); [exact K|reflexivity]. }
+  assert (SP : sched_pass nw 0 w0 d = emitf (updd w0 d (t_waiting_ds false)) (FSched (Z.max 0 (nw + 0)) P_PASS_PART d (APassPart d))).
+  { unfold sched_pass. rewrite K0. reflexivity. }
+  rewrite SP. set (w1 := emitf (updd w0 d (t_waiting_ds false)) (FSched (Z.max 0 (nw + 0)) P_PASS_PART d (APassPart d))).
+  assert (RV1 : d_reserved (getd w1 d) = Some i).
+  { unfold w1. change (getd (emitf ?a ?c) d) with (getd a d). rewrite (getd_updd_field d_reserved w0 d _ d) by reflexivity.
+    unfold w0. rewrite (getd_updd_field d_reserved w d (t_finish_proc nw it) d) by reflexivity. exact RV. }
+  rewrite RV1.
+  set (w3 := emitf w1 (FSched nw P_RELEASE d (AReleaseIfIdle d))).
+  match goal with |- context[run_cbops nw d false false (-1) ?ops w3] =>
+    destruct (out_ext_run_cbops nw d false false (-1) ops w3) as [l H]; set (w4 := run_cbops nw d false false (-1) ops w3) in * end.
+  assert (E : exists l2, f_out (match d_out (getd w4 d) with Some it' => rec_part w4 L_PRODUCED d nw it' | None => w4 end) = l2 ++ f_out w4).
+  { destruct (d_out (getd w4 d)); [eexists [_]; reflexivity|exists []; reflexivity]. }
+  destruct E as [l2 E]. exists (l2 ++ l). eexists. split.
+  - rewrite E, H. unfold w3, emitf. cbn [f_out]. rewrite <- app_assoc. reflexivity.
+  - unfold w1, emitf. cbn. left. reflexivity.
+Qed.
+
+(** a sink's collected list only grows at the end, in arrival order (C08) *)
+Definition collected_ids (x : dev) : list Z := map item_id (d_collected x).
+Definition coll_ext (x x' : dev) : Prop := exists l, collected_ids x' = collected_ids x ++ l.
+
+Lemma coll_ext_refl x : coll_ext x x. Proof. exists []. rewrite app_nil_r. reflexivity. Qed.
+Lemma coll_ext_trans x y z : coll_ext x y -> coll_ext y z -> coll_ext x z.
+Proof. intros [a A] [b B]. exists (a ++ b). rewrite B, A, app_assoc. reflexivity. Qed.
+
+Lemma coll_same x x' : d_collected x' = d_collected x -> coll_ext x x'.
+Proof. intro E. exists []. unfold collected_ids. rewrite E, app_nil_r. reflexivity. Qed.
+
+Lemma coll_prim nw g f : dprim nw g f -> forall x, g x -> coll_ext x (f x).
+Proof.
+  intros Pr x G. destruct Pr; try (apply coll_same; reflexivity).
+  - apply coll_same. unfold dev_set_wait. destruct (negb a); [reflexivity|]. destruct (d_wait_since x); [destruct b|]; reflexivity.
+  - apply coll_same. unfold t_map_slot. destruct slot; reflexivity.
+  - unfold t_accept_sink. cbv zeta. unfold coll_ext, collected_ids, dev_add_value, t_accept, dev_set_wait.
+    destruct (item_value it =? 0); cbn; destruct (d_collect x); try (exists []; rewrite app_nil_r; reflexivity);
+      (exists [item_id it]; rewrite map_app; reflexivity).
+  - apply coll_same. unfold t_buf_pop. destruct (d_buf x) as [|[t it] r]; [reflexivity|]. destruct (0 <? _); reflexivity.
+  - apply coll_same. unfold t_supplied, dev_add_value. destruct (- v =? 0); reflexivity.
+Qed.
+
+Lemma upd_item_id pid f it : (forall p, p_id (f p) = p_id p) -> item_id (upd_part_in_item pid f it) = item_id it.
+Proof. intro H. destruct it as [p|b ps]; unfold item_id; cbn; [destruct (p_id p =? pid)|destruct (p_id b =? pid)]; try reflexivity; apply H. Qed.
+
+Theorem exec_collected nw fuel uops a w d x :
+  aget d (f_devs w) = Some x ->
+  exists x', aget d (f_devs (exec_fact fuel uops a w nw)) = Some x' /\ coll_ext x x'.
+Proof.
+  intro Hx. apply (R_rel nw (fun _ => True) coll_ext) with (n := MFull) (w := w).
+  - apply coll_ext_refl.
+  - apply coll_ext_trans.
+  - split; intros; exact I.
+  - intros g f Pr y G _. apply (coll_prim nw g f Pr y G).
+  - intros pid f Hid y _. unfold coll_ext, collected_ids, upd_part_in_dev. cbn. exists []. rewrite app_nil_r, map_map.
+    apply map_ext. intro it. apply upd_item_id, Hid.
+  - apply R_exec_fact. reflexivity.
+  - intros d0 y _. exact I.
+  - exact Hx.
+Qed.
